@@ -145,4 +145,41 @@ def baryInv (M B0 : K) (act : List (K × K)) (tst : List K) : Out K :=
   let x0 := (M * B0 - sx) * (Scalar.one / m0)
   { m0 := m0, x0 := x0, act := xs.map (fun p => p.2), tst := tst.map (fun b => b + B0) }
 
+/-! ## in-place democratic-heliocentric maps of the hybrid integrators
+     (integrator_mercurius.c:97-167, integrator_trace.c:174-246 — identical code) -/
+
+/-- `com += m*x; mtot += m` over all active particles starting from 0 -/
+def hybAcc : K → K → List (K × K) → K × K
+  | c, mt, [] => (c, mt)
+  | c, mt, (m, x) :: r => hybAcc (c + m * x) (mt + m) r
+
+structure HOut (K : Type) where
+  com : K          -- value stored in ri_*.com_pos / com_vel (forward) or unused (inverse)
+  x0  : K
+  act : List K
+  tst : List K
+deriving Repr
+
+/-- positions: everything (including particle 0 itself) relative to particle 0 -/
+def hybFwdPos (m0 x0 : K) (act : List (K × K)) (tst : List K) : HOut K :=
+  let (c, mt) := hybAcc Scalar.zero Scalar.zero ((m0, x0) :: act)
+  { com := c / mt, x0 := x0 - x0, act := act.map (fun p => p.2 - x0), tst := tst.map (fun x => x - x0) }
+
+/-- velocities: everything relative to the centre-of-mass velocity -/
+def hybFwdVel (m0 v0 : K) (act : List (K × K)) (tst : List K) : HOut K :=
+  let (c, mt) := hybAcc Scalar.zero Scalar.zero ((m0, v0) :: act)
+  let V := c / mt
+  { com := V, x0 := v0 - V, act := act.map (fun p => p.2 - V), tst := tst.map (fun v => v - V) }
+
+/-- `dh_to_inertial`, positions; `act` = (mass, heliocentric coordinate), `cp` = stored com_pos -/
+def hybInvPos (m0 cp : K) (act : List (K × K)) (tst : List K) : HOut K :=
+  let (t, tm) := hybAcc Scalar.zero Scalar.zero act
+  let x0 := cp - t / (tm + m0)
+  { com := cp, x0 := x0, act := act.map (fun p => p.2 + x0), tst := tst.map (fun q => q + x0) }
+
+/-- `dh_to_inertial`, velocities; `cv` = stored com_vel -/
+def hybInvVel (m0 cv : K) (act : List (K × K)) (tst : List K) : HOut K :=
+  let (t, _) := hybAcc Scalar.zero Scalar.zero act
+  { com := cv, x0 := cv - t / m0, act := act.map (fun p => p.2 + cv), tst := tst.map (fun p => p + cv) }
+
 end RV.Transform
